@@ -26,43 +26,42 @@ def digests(mod, tier, seed, n, workers):
 
 
 def main(args) -> int:
+    """every configuration runs in its own fresh interpreter, so that no property's warm-up shapes another one's zygote"""
     from .driver import CLAIMED, load, MAIN
     props = [p for p in os.environ.get("VERIF_SELFTEST_PROPS", ",".join(CLAIMED)).split(",") if p]
     n = int(os.environ.get("VERIF_SELFTEST_N", "40"))
-    sub = os.environ.get("S2TSIM_SELFTEST_SUB") == "1"
-    K.assert_repo_tree()
-    K.quiet_process()
+    if os.environ.get("S2TSIM_SELFTEST_SUB") == "1":
+        K.assert_repo_tree()
+        K.quiet_process()
+        mod = load(props[0])
+        mod.warm()
+        res = digests(mod, "quick", args.seed, n, int(os.environ.get("S2TSIM_SELFTEST_WORKERS", str(K.NPROC))))
+        K.cleanup_sandbox()
+        print(json.dumps({props[0]: res}))
+        return 0
     bad = 0
-    result = {}
     for p in props:
         try:
-            mod = load(p)
+            load(p)
         except ModuleNotFoundError:
             continue
-        mod.warm()
         t0 = time.time()
-        a = digests(mod, "quick", args.seed, n, K.NPROC)
-        if sub:
-            result[p] = a
-            continue
-        b = digests(mod, "quick", args.seed, n, 3)
-        env = {k: v for k, v in os.environ.items() if k != "S2TSIM_PINNED"}
-        env.update({"VERIF_HASHSEED": "4242", "S2TSIM_SELFTEST_SUB": "1", "VERIF_SELFTEST_PROPS": p, "VERIF_SELFTEST_N": str(n)})
-        out = subprocess.run([sys.executable, MAIN, "selftest", "--seed", str(args.seed)], env=env, capture_output=True, text=True)
-        try:
-            c = {int(k): v for k, v in json.loads(out.stdout.strip().splitlines()[-1])[p].items()}
-        except Exception:
-            print(f"[selftest] {p}: fresh-interpreter run failed: {out.stderr[-800:]}")
-            bad += 1
-            continue
-        mm = [i for i in a if not (a[i] == b.get(i) == c.get(i)) or str(a[i]).startswith("HARNESS")]
-        print(f"[selftest] {p}: {len(a)} seeds x 3 executions (16 workers, 3 workers, fresh interpreter PYTHONHASHSEED=4242): "
+        cols = []
+        for hs, workers in (("0", K.NPROC), ("0", 3), ("4242", K.NPROC)):
+            env = {k: v for k, v in os.environ.items() if k != "S2TSIM_PINNED"}
+            env.update({"VERIF_HASHSEED": hs, "S2TSIM_SELFTEST_SUB": "1", "VERIF_SELFTEST_PROPS": p, "VERIF_SELFTEST_N": str(n),
+                        "S2TSIM_SELFTEST_WORKERS": str(workers)})
+            out = subprocess.run([sys.executable, MAIN, "selftest", "--seed", str(args.seed)], env=env, capture_output=True, text=True)
+            try:
+                cols.append({int(k): v for k, v in json.loads(out.stdout.strip().splitlines()[-1])[p].items()})
+            except Exception:
+                print(f"[selftest] {p}: configuration hashseed={hs} workers={workers} failed: {out.stderr[-800:]}")
+                cols.append({})
+        a, b, c = cols
+        mm = [i for i in range(n) if not (a.get(i) is not None and a.get(i) == b.get(i) == c.get(i)) or str(a.get(i)).startswith("HARNESS")]
+        print(f"[selftest] {p}: {n} seeds x 3 fresh interpreters ({K.NPROC} workers / 3 workers / PYTHONHASHSEED=4242): "
               f"{len(mm)} mismatches {mm[:8]} ({time.time() - t0:.1f}s)")
         for i in mm[:3]:
-            print("   ", i, a[i], b.get(i), c.get(i))
+            print("   ", i, a.get(i), b.get(i), c.get(i))
         bad += len(mm)
-    K.cleanup_sandbox()
-    if sub:
-        print(json.dumps(result))
-        return 0
     return 1 if bad else 0
